@@ -409,3 +409,26 @@ func RunReplay(t interface {
 	}
 	fmt.Printf("REPLAY-PASSES property=%s\n", rp.Property)
 }
+
+// Journal records the case that is about to run so that ./check can replay it in a fresh process
+// if this process dies un-recoverably (fatal error: out of memory, stack exhaustion).
+func (r *Recorder) Journal(test string, c any) {
+	prefix := os.Getenv(EnvPart)
+	if prefix == "" {
+		return
+	}
+	cj, err := json.Marshal(c)
+	if err != nil {
+		return
+	}
+	rp := Replay{Property: r.Property, Signature: r.Property + "/process-died", Detail: "journaled case (the process died while running it)", Test: test, Case: cj}
+	data, _ := json.Marshal(rp)
+	_ = os.WriteFile(prefix+".journal", data, 0o644)
+}
+
+// JournalClear removes the journal after a clean finish.
+func (r *Recorder) JournalClear() {
+	if prefix := os.Getenv(EnvPart); prefix != "" {
+		_ = os.Remove(prefix + ".journal")
+	}
+}
